@@ -306,6 +306,9 @@ func (rc *recorder) oneLog(root string, seed int64, big bool) {
 		limit = 0
 	}
 	w.opt, w.limit = limit, limit
+	if rc.r.Intn(3) == 0 { // file indices that cross 1000 while the log grows
+		w.seedBase(960 + rc.r.Intn(45))
+	}
 	if err := w.open(); err != nil {
 		rc.add(&event{A: "unexplainable: " + err.Error()})
 		return
